@@ -403,6 +403,17 @@ def rule_file_checkers(ctx):
                     pre_ok = all(b.must_before(u.bb, ctx.both(inf, lambda n_: n_ in fb), start=e[1]) is None for e in some_e) if fixed else False
                     if not pre_ok:
                         bad = True
+            # the bytes hashed for an entry are its name, converted without loss
+            LOSSLESS = {'file_name', 'as_encoded_bytes', 'deref', 'as_os_str', 'as_bytes', 'as_ref', 'borrow', 'into_encoded_bytes', 'as_slice', 'next', 'branch', 'into_iter', 'read_dir', 'as_path', 'into_os_string',
+                        'to_os_string', 'as_mut_os_str'}
+            for u in var:
+                anc = ancestors(b, b.orig_operand(u.args[1]), depth=10)
+                names = {x.name for x in anc.values()}
+                from_names = 'file_name' in names or 'path' in names
+                lossy = sorted(n_ for n_ in names if n_ not in LOSSLESS)
+                if from_names:
+                    R.ob('F5-lossless', b.path, not lossy, 'entry names are hashed through lossless conversions only' if not lossy
+                         else 'entry names pass through %s before hashing: distinct names can collapse to the same bytes (e.g. non-UTF-8 names under a lossy conversion)' % lossy, ctx.where(b, u.bb), props=P)
             R.ob('F5-framing', b.path, not bad, 'variable-length items fed to the digest in a loop are delimited (different item sets cannot concatenate to the same byte stream)' if not bad
                  else 'variable-length items are fed to the digest back to back: {"ab"} and {"a","b"} hash alike', ctx.where(b, var[0].bb), props=P)
     if have_hash:
